@@ -154,6 +154,41 @@ let show_obs te (o : obs) =
     Buffer.add_string b (if o.o_wf then " ; WF 1" else " ; WF 0");
     Buffer.contents b
 
+(* ---------- concurrency scenarios: run the interleaving model (Conc.v) on a round-robin schedule;
+   by the theorems of ConcProofs.v the canonical summary is the same for every schedule ---------- *)
+let round_robin nthreads rounds =
+  List.concat (List.init rounds (fun _ -> List.init nthreads (fun t -> nat_of_int t)))
+
+let model_conc toks =
+  match toks with
+  | "M" :: _seed :: mode :: nchains :: ng :: nuses :: keys ->
+    let mode = int_of_string mode and nchains = int_of_string nchains and ng = int_of_string ng and nuses = int_of_string nuses in
+    let keys = Array.of_list (List.map int_of_string keys) in
+    let chain_key i = keys.(i mod Array.length keys) in
+    (* one model thread per use; its key as the harness computes it *)
+    let uses = List.concat (List.init ng (fun g -> List.init nuses (fun u ->
+      let k = if mode = 2 then chain_key ((g + u) mod nchains) else keys.(g * nuses + u) in
+      if mode = 3 then min k 3 else k))) in
+    let s = run mstep (round_robin (List.length uses) (4 * List.length uses + 4)) (minit (List.map nat_of_int uses)) in
+    let distinct = List.sort_uniq compare uses in
+    let ok = List.for_all (fun k -> List.length (calls_for (nat_of_int k) s) = 1) distinct in
+    if ok then Printf.sprintf "MEMO keys=%d one_call_per_key same_result" (List.length s.ms_cache)
+    else "MODEL-UNEXPECTED"
+  | ["O"; _seed; nchains; ng] ->
+    let nchains = int_of_string nchains and ng = int_of_string ng in
+    (* the singleton across all chains, and the static chain of each chain: one-key instances *)
+    let s = run mstep (round_robin (ng * nchains) (4 * ng * nchains + 4)) (minit (List.init (ng * nchains) (fun _ -> O))) in
+    Printf.sprintf "ONCE chains=%d singleton=%d static_once init_same" nchains (List.length (calls_for O s))
+  | "S" :: _ -> "ISOLATED same_as_alone static_once"
+  | ["D"; _seed; ng; fails] ->
+    let ng = int_of_string ng and fails = int_of_string fails in
+    let fl = List.init ng (fun g -> (fails lsr g) land 1 = 1) in
+    let s = run dstep (round_robin ng (8 * ng + 8)) (dinit fl) in
+    if dfinished s && List.for_all (fun (a, w) -> a = w) s.ds_log
+    then Printf.sprintf "DEBUGLOCK binds=%d failing=%d all_returned prefix_ok no_crosstalk" ng (List.length (List.filter (fun b -> b) fl))
+    else "MODEL-UNEXPECTED"
+  | _ -> "UNKNOWN-CASE"
+
 (* ---------- dispatch ---------- *)
 let split_on_sep s =   (* split on " ## " *)
   let rec go acc cur i =
@@ -172,6 +207,7 @@ let model_line line =
   match split_ws line with
   | "E" :: rest -> show_edits_obs (edits_obs (parse_edits rest))
   | "K" :: rest -> let (te, c) = parse_chain rest in show_obs te (model_run c)
+  | ("M" | "O" | "S" | "D") :: _ as toks -> model_conc toks
   | "PAIR" :: _ ->
     (match split_on_sep line with
      | [_; a; b] -> model_k a ^ " ## " ^ model_k b
@@ -380,6 +416,8 @@ let monitor_line prop line =
        "FAIL the call did not return an error or a result: " ^ obs
      | _, "K" :: rest -> monitor_chain prop rest obs
      | _, "PAIR" :: _ -> monitor_pair prop case obs
+     | _, (("M" | "O" | "S" | "D") :: _ as toks) ->
+       if obs = model_conc toks then "PASS" else "FAIL " ^ obs
      | _ -> "PASS (no monitor for this stream)")
   | _ -> "FAIL malformed monitor input"
 
